@@ -269,7 +269,7 @@ func prepare(race bool, engine, engine2 string) *build {
 			die(2, "building the instrumented worker (http) failed: %v\n%s", err, out)
 		}
 	}
-	b.vconv = filepath.Join(scratch, "vconv")
+	b.vconv = filepath.Join(scratch, "vconv.bin") // not "vconv": DELETE /api/converters/<name> of a converter that is not loaded looks for an executable called <name> in the working directory
 	if out, err := run(harness, env, goBin, "build", "-o", b.vconv, "./cmd/vconv"); err != nil {
 		os.RemoveAll(scratch)
 		die(2, "building vconv failed: %v\n%s", err, out)
